@@ -247,4 +247,33 @@ PROPS = {
             "theorems about coq/Model/Build.v against coq/Model/Ideal.v under the serial schedule; other schedules by C06; tied to the code by the history suite (verdict and workspace columns)",
         ],
     },
+    "C11": {
+        "level": "proof",
+        "suites": ["crash"],
+        "columns": ["verdict", "files", "cache", "hist", "table"],
+        "rule": "30 quick / 300 thorough scenarios: generated rule graph and sources, prior state fresh / built / built-edited / built-cleaned / built-tampered / "
+                "built-edited-built-reverted, then a build or clean (goal or all) run with every file-system mutation recorded and writes torn into chunks (1 byte for a "
+                "quarter of the scenarios, all in thorough). EVERY mutation index is a crash point (directory creation, create, every torn write of state files and of command "
+                "outputs, rename, chmod): the snapshot is checked (cache content-addressed, no previously existing content lost outside a running command) and a fresh build "
+                "from it must not panic, must not be wedged, must succeed when a from-scratch build would, and must satisfy C01, C07, C08, C09, C20. The uninterrupted scenario "
+                "is a history case for the model. evaluations counts scenarios; coverage.suites.crash.extra.crash_points counts the crash points explored.",
+        "trusted_base": COMMON_TB + ["'killed' = all threads stop between two System calls of the in-memory file system; power-loss reordering below the file-system API is not modelled"],
+        "assumptions": [
+            "PARTIAL: proved: at every crash state (any prefix of ruler's and the commands' primitive actions, any schedule) the disk invariant holds, no state file under a real name is damaged, the next build is not wedged; C01 for the recovery build needs history soundness at crash states inside a build, which is proved at quiescent points only — the recovery build is monitored at every crash point",
+            "serial schedule for the killed invocation in the enumeration; deterministic commands; fine clock",
+        ],
+    },
+    "C18": {
+        "level": "proof",
+        "suites": ["c18_shortcut"],
+        "columns": ["verdict", "files", "cache", "hist", "table"],
+        "rule": "220 quick / 3000 thorough generated histories (alphabet of C01, deterministic commands), half under the fine clock and half under the coarse clock (one tick per "
+                "user action or ruler invocation), each run twice — as is, and with the file-state table erased before every build; verdict and workspace after every build "
+                "must agree between the two runs (monitor), and all runs are history cases for the model (which implements both clocks); corpus cases (the F4 history and a "
+                "contents-cycling history) run first, paired as well. Distinct by hash of the history; non-trivial = contains a successful build.",
+        "trusted_base": COMMON_TB,
+        "assumptions": [
+            "PARTIAL: theorem for the fine clock (any sound table, erased included, gives literally the same build and clean); coarse clock decided by paired runs and model correspondence only",
+        ],
+    },
 }
